@@ -16,3 +16,4 @@ def run(ck):
         codec.r1_codec(ck, P, ck.tier, be=True)
     prefetch.r11_tail_access_needs_remaining_count(ck, P, 'C03-R8')
     geometry.r9_clip_consulted_under_its_flag(ck, P)
+    geometry.r10_region_gets_callers_images(ck, P)
